@@ -111,16 +111,34 @@ def payload_fragments(plan):
         pre = re.sub(r"\bself\b", "self_", pre)
         tn = T.lower()
         frags.append("fn vkfrag_payload_%s(self_: &%s) -> MResult<Vec<u8>> {\n  %s\n  Ok(payload)\n}\n" % (tn, T, pre))
-        h = "vkc06_payload__%s__agrees_with_element_codec" % tn
-        names.append(h)
+        variants = [("", None)]
         if T == "String":
-            mk = """  // a fixed set of strings that includes multi-byte UTF-8 (symbolic bytes through from_utf8 do not finish under CBMC)
-  let pick: u8 = vk::any(); vk::assume(pick < 5);
-  let x: String = match pick { 0 => String::new(), 1 => String::from("a"), 2 => String::from("\\u{e9}"), 3 => String::from("\\u{65e5}\\u{672c}"), _ => String::from("a\\u{e9}b") };"""
-            same = "y == x"
-        else:
-            mk = "  let x: %s = vk::any();" % T
-            same = "vk::same(&y, &x)"
+            # concrete strings incl. multi-byte UTF-8 (from_utf8 / String building over symbolic bytes does not finish under CBMC)
+            variants = [("_ascii", 'String::from("ab")'), ("_two_byte", 'String::from("h\\u{e9}")'), ("_three_byte", 'String::from("\\u{65e5}\\u{672c}")')]
+        for vsuffix, vexpr in variants:
+          h = "vkc06_payload__%s%s__agrees_with_element_codec" % (tn, vsuffix)
+          names.append(h)
+          if T == "String":
+              mk = "  let x: String = %s;" % vexpr
+              same = "y == x"
+          else:
+              mk = "  let x: %s = vk::any();" % T
+              same = "vk::same(&y, &x)"
+          harn.append("""#[cfg_attr(kani, kani::proof)]
+#[cfg_attr(kani, kani::unwind(24))]
+#[cfg_attr(kani, kani::stub(alloc::fmt::format, fmt_stub))]
+pub(crate) fn %(h)s() {
+%(mk)s
+  vk::reach();
+  let p = match vkfrag_payload_%(tn)s(&x) { Ok(p) => p, Err(_) => { assert!(false, "VK: encoding a constant succeeds"); return; } };
+  let mut w: Vec<u8> = Vec::new();
+  x.write_le(&mut w);
+  assert!(p == w, "VK: the constant payload the compiler emits equals the element encoding of the same value");
+  let y = <%(T)s as ConstElem>::from_le(&p[..]);
+  assert!(%(same)s, "VK: decoding the emitted constant yields the value the compiler wrote");
+}
+""" % dict(h=h, mk=mk, tn=tn, T=T, same=same))
+        continue
         harn.append("""#[cfg_attr(kani, kani::proof)]
 #[cfg_attr(kani, kani::unwind(24))]
 #[cfg_attr(kani, kani::stub(alloc::fmt::format, fmt_stub))]
